@@ -34,8 +34,48 @@ pub enum Points {
     Explicit(Vec<u64>),
 }
 
+/// Host-provided modules shared by victims and observers.
+pub fn shared_modules() -> std::collections::BTreeMap<String, String> {
+    let mut m = std::collections::BTreeMap::new();
+    m.insert(
+        "/shared/ok.ts".to_string(),
+        "console.log(\"run ok\"); export const dv: number = 5; export function dfn(): number { return dv + 1; }".to_string(),
+    );
+    m.insert(
+        "/shared/ok2.ts".to_string(),
+        "import { dv } from \"./ok.ts\"; console.log(\"run ok2\"); export const dv2: number = dv * 2;".to_string(),
+    );
+    // victims import working modules from their own directory: a module a victim has loaded
+    // successfully stays loaded (module registry = deliberate global effect), so observers use
+    // /shared/ok*.ts which no victim touches; the failing module is shared on purpose
+    m.insert(
+        "/victims/ok.ts".to_string(),
+        "console.log(\"run vok\"); export const dv: number = 7;".to_string(),
+    );
+    m.insert(
+        "/shared/bad.ts".to_string(),
+        "console.log(\"run bad\"); export const a: number = 1; function boom(): any { { let inner: any = 1; throw new Error(\"dep died \" + inner); } } boom(); export const b: number = 2;".to_string(),
+    );
+    m
+}
+
+const IMPORT_OBSERVER_OK: &str = r#"import { dv, dfn } from "/shared/ok.ts";
+import { dv2 } from "/shared/ok2.ts";
+[typeof vn0, typeof __log, typeof vmain, typeof inner, dv, dfn(), dv2].join(",")
+"#;
+
+const IMPORT_OBSERVER_BAD: &str = r#"import { a, b } from "/shared/bad.ts";
+[typeof vn0, typeof inner, a, b].join(",")
+"#;
+
 #[derive(Clone, Debug, Serialize, Deserialize)]
 pub struct Victim {
+    /// host-provided module the victim imports (path in the shared store), if any
+    #[serde(default)]
+    pub import: Option<String>,
+    /// the host never delivers the import: the victim is abandoned at NeedImports
+    #[serde(default)]
+    pub withhold: bool,
     pub case: ProgCase,
     /// wrap the body in a block (script mode) or run it as a module with this path
     pub module_path: Option<String>,
@@ -50,6 +90,13 @@ pub struct Scn {
     pub points: Points,
     pub observer: ProgCase,
     pub fuel: u64,
+    /// the importing observers run first (right after the victims) instead of last
+    #[serde(default)]
+    pub import_observers_first: bool,
+    #[serde(default)]
+    pub import_observers_as_modules: bool,
+    #[serde(default)]
+    pub import_observers_eval: bool,
 }
 
 pub struct C11;
@@ -117,6 +164,7 @@ fn battery_spec(fuel: u64) -> crate::host::RunSpec {
         fuel,
         clock_start: 0,
         random_seed: 1,
+        withhold_imports: false,
     }
 }
 
@@ -160,6 +208,8 @@ fn normalise_traffic(t: &[String]) -> Vec<String> {
 struct ObsResult {
     battery: Outcome,
     observer: Outcome,
+    import_ok: Outcome,
+    import_bad: Outcome,
     depth_before: usize,
     depth_after: usize,
     quiescence: String,
@@ -177,16 +227,37 @@ pub fn run_to_end(h: &mut Host, spec: crate::host::RunSpec) -> Outcome {
 
 fn observers(h: &mut Host, scn: &Scn) -> ObsResult {
     let depth_before = h.interp.call_depth();
+    // observers that have to wait for host-provided modules (script or module flavour, eval or step)
+    let importing = |h: &mut Host, src: &str, path: &str| -> Outcome {
+        let mut s = battery_spec(scn.fuel);
+        s.source = src.to_string();
+        s.modules = shared_modules();
+        s.path = if scn.import_observers_as_modules { Some(path.to_string()) } else { None };
+        s.driver = if scn.import_observers_eval { Driver::Eval } else { Driver::Step };
+        run_to_end(h, s)
+    };
+    let mut import_ok = None;
+    let mut import_bad = None;
+    if scn.import_observers_first {
+        import_ok = Some(importing(h, IMPORT_OBSERVER_OK, "/obs/imp_ok.ts"));
+        import_bad = Some(importing(h, IMPORT_OBSERVER_BAD, "/obs/imp_bad.ts"));
+    }
     let battery = run_to_end(h, battery_spec(scn.fuel));
     let mut ospec = scn.observer.spec(Driver::Step, GcSched::off(), Tape::from_vec(vec![]), scn.fuel);
     ospec.path = Some("/obs/observer.ts".into());
     let observer = run_to_end(h, ospec);
+    if !scn.import_observers_first {
+        import_bad = Some(importing(h, IMPORT_OBSERVER_BAD, "/obs/imp_bad.ts"));
+        import_ok = Some(importing(h, IMPORT_OBSERVER_OK, "/obs/imp_ok.ts"));
+    }
     let depth_after = h.interp.call_depth();
     h.interp.collect();
     let q = h.interp.verif_quiescence();
     ObsResult {
         battery,
         observer,
+        import_ok: import_ok.unwrap_or_default(),
+        import_bad: import_bad.unwrap_or_default(),
         depth_before,
         depth_after,
         quiescence: format!("{:?}", q),
@@ -194,14 +265,23 @@ fn observers(h: &mut Host, scn: &Scn) -> ObsResult {
 }
 
 fn victim_spec(v: &Victim, fuel: u64) -> crate::host::RunSpec {
-    let mut spec = v.case.spec(Driver::Step, v.gc.clone(), v.tape.clone(), fuel);
+    let mut case = v.case.clone();
+    if let Some(imp) = &v.import
+        && let Some(first) = case.tree.kids.first_mut()
+    {
+        let what = if imp.ends_with("bad.ts") { "a as imp_a" } else { "dv as imp_a" };
+        first.pre = format!("import {{ {} }} from \"{}\";\n{}", what, imp, first.pre);
+    }
+    let mut spec = case.spec(Driver::Step, v.gc.clone(), v.tape.clone(), fuel);
     match &v.module_path {
         Some(p) => spec.path = Some(p.clone()),
         None => {
-            spec.source = block_wrapped_source(&v.case);
+            spec.source = block_wrapped_source(&case);
             spec.path = None;
         }
     }
+    spec.modules = shared_modules();
+    spec.withhold_imports = v.withhold;
     spec
 }
 
@@ -302,7 +382,19 @@ impl Check for C11 {
                     _ => End::RunOut,
                 }
             };
+            let import = match rng.below(20) {
+                0..=2 => Some("/victims/ok.ts".to_string()),
+                3..=6 => Some("/shared/bad.ts".to_string()),
+                _ => None,
+            };
+            let withhold = import.is_some() && rng.chance(0.25);
+            // KF-C11-1 (open): a module delivered to a run that is then abandoned before the
+            // module body ran is executed by the next run that waits for any import. Importing
+            // victims therefore run out (or never get their module); the witness covers the rest.
+            let end = if import.is_some() { End::RunOut } else { end };
             victims.push(Victim {
+                import,
+                withhold,
                 case,
                 module_path: if rng.chance(0.4) { Some(format!("/victims/{}.ts", prefix)) } else { None },
                 end,
@@ -318,7 +410,15 @@ impl Check for C11 {
             Tier::Quick => Points::Sample { n: 12, seed: rng.next_u64() },
             Tier::Thorough => Points::All { limit: 400, fallback: 60, seed: rng.next_u64() },
         };
-        Scn { victims, points, observer, fuel: 2_000_000 }
+        Scn {
+            victims,
+            points,
+            observer,
+            fuel: 2_000_000,
+            import_observers_first: rng.chance(0.5),
+            import_observers_as_modules: rng.chance(0.5),
+            import_observers_eval: rng.chance(0.3),
+        }
     }
 
     fn shrink(&self, scn: &Scn) -> Vec<Scn> {
@@ -472,6 +572,26 @@ impl Check for C11 {
                     "observer traffic",
                     format!("{:?}", normalise_traffic(&fresh.observer.traffic)),
                     format!("{:?}", normalise_traffic(&reused.observer.traffic)),
+                ));
+            } else if fresh.import_ok.result != reused.import_ok.result
+                || fresh.import_ok.console != reused.import_ok.console
+                || normalise_traffic(&fresh.import_ok.traffic) != normalise_traffic(&reused.import_ok.traffic)
+            {
+                rep.fail(mk(
+                    "importing_observer_differs_from_fresh",
+                    "observer importing /shared/ok.ts",
+                    format!("{} {:?} {:?}", fresh.import_ok.result, fresh.import_ok.console, fresh.import_ok.traffic),
+                    format!("{} {:?} {:?}", reused.import_ok.result, reused.import_ok.console, reused.import_ok.traffic),
+                ));
+            } else if fresh.import_bad.result != reused.import_bad.result
+                || fresh.import_bad.console != reused.import_bad.console
+                || normalise_traffic(&fresh.import_bad.traffic) != normalise_traffic(&reused.import_bad.traffic)
+            {
+                rep.fail(mk(
+                    "observer_importing_failing_module_differs_from_fresh",
+                    "observer importing /shared/bad.ts",
+                    format!("{} {:?} {:?}", fresh.import_bad.result, fresh.import_bad.console, fresh.import_bad.traffic),
+                    format!("{} {:?} {:?}", reused.import_bad.result, reused.import_bad.console, reused.import_bad.traffic),
                 ));
             } else if fresh.observer.exports != reused.observer.exports {
                 rep.fail(mk("observer_exports_differ_from_fresh", "exports", format!("{:?}", fresh.observer.exports), format!("{:?}", reused.observer.exports)));
